@@ -481,6 +481,9 @@ func explore(sc *scenario, minBound int, budget time.Duration) report {
 		budget = soft
 		if bound <= minBound {
 			budget = 20 * soft
+			if budget > 1500*time.Second {
+				budget = 1500 * time.Second
+			}
 		}
 		if time.Since(start) > budget {
 			break
